@@ -326,6 +326,41 @@ func main() {
 			}
 			recheck(&dec, how)
 		}
+		// a counter keeps counting for the set it was created from, even if the set OBJECT is meanwhile overwritten by
+		// decoding the next epoch's set into it
+		if enc, err := rlp.EncodeToBytes(vv); err == nil {
+			var obj pos.Validators
+			if rlp.DecodeBytes(enc, &obj) == nil {
+				ids := obj.SortedIDs()
+				cnt := obj.NewCounter()
+				var s uint64
+				half := (n + 1) / 2
+				for i := 0; i < half; i++ {
+					cnt.Count(ids[i])
+					s += uint64(vv.GetWeightByIdx(idx.Validator(i)))
+				}
+				var next []wire
+				for i := n - 1; i >= 0; i-- { // other order and other weights (all 1)
+					next = append(next, wire{ids[i], 1})
+				}
+				if enc2, err := rlp.EncodeToBytes(next); err == nil && rlp.DecodeBytes(enc2, &obj) == nil {
+					pv := core.Catch(func() {
+						for i := half; i < n; i++ {
+							cnt.Count(ids[i])
+							s += uint64(vv.GetWeightByIdx(idx.Validator(i)))
+							if uint64(cnt.Sum()) != s || cnt.HasQuorum() != (s >= q) {
+								c.Violation("counter-follows-overwritten-set", ws, "weights %v: a counter created before the set object was overwritten by a decoded set reports Sum=%d HasQuorum=%v after counting %d validators; its own set gives %d / %v", ws, cnt.Sum(), cnt.HasQuorum(), i+1, s, s >= q)
+								return
+							}
+						}
+					})
+					if pv != nil {
+						c.Violation("panic/counter-after-overwrite", ws, "weights %v: counting after the set object was overwritten panicked: %v", ws, pv)
+					}
+				}
+				c.Count("evaluations", 1)
+			}
+		}
 	})
 	// part 3: large sets (the counter's "already counted" bookkeeping crosses machine-word boundaries): every
 	// pair of calls (i, j) by index and by ID on a fresh counter, and full passes in both directions followed
